@@ -20,6 +20,11 @@ def gen_cases(tier, rng):
     yield from fanout.gen_histories(tier, rng)
 
 
+def split_impl(c, out):
+    """popen= (relay-push sessions still open at the end) is observed on the implementation only"""
+    return "|".join(p for p in out.split("|") if not p.startswith(("hook=", "popen="))) or "-"
+
+
 def nontrivial(c, out):
     return c.line if any(x in out for x in ("c", "t")) and not out.startswith(("err", "bad", "model-")) else None
 
@@ -54,8 +59,8 @@ def oracle(c, out):
         elif e[0] == "L":
             leaves.setdefault(e[1], pos)
     for cid, k in kinds.items():
-        if k == "t":
-            continue   # TS consumers: C02 / C06
+        if k == "t" or obs.get(cid) == [["!"]]:
+            continue   # TS consumers: C02 / C06; consumers whose connection was broken are not observed
         segs = obs.get(cid)
         if segs is None:
             return (False, "consumer %s missing from the observation" % cid)
